@@ -13,7 +13,8 @@ def boundary_vars(path):
     return names
 
 
-def check_grads(path, L, leaves, timeout_ms=10000, per_element=False, extra_conds=(), skip_vars=()):
+def check_grads(path, L, leaves, timeout_ms=10000, per_element=False, extra_conds=(), skip_vars=(), subst=None,
+                none_means_zero=True):
     """
     path    : engine Path (pc, dom)
     L       : scalar term  Σ g·out  recorded from the implementation's own forward pass
@@ -41,6 +42,9 @@ def check_grads(path, L, leaves, timeout_ms=10000, per_element=False, extra_cond
             var_terms.append(v)
             slots.append((label, k, g))
     refs, ddom = diff.grad(L, var_terms)
+    if subst:
+        refs = tm.substitute(refs, subst)
+        ddom = tm.substitute(ddom, subst)
     conds = list(path.pc) + list(path.dom) + ddom + list(extra_conds)
     prob = query.Problem(conds)
     nice = [v for v in tm.variables([L])]
@@ -57,6 +61,14 @@ def check_grads(path, L, leaves, timeout_ms=10000, per_element=False, extra_cond
         for p in pairs:
             by.setdefault(p[0], []).append(p)
         groups = list(by.values())
+    try:
+        prob.base_conditions([x for (_, _, g, ref) in pairs for x in (g, ref)], raw=True)
+    except ZeroDivisionError:
+        # a denominator is identically zero: the domain of the program is empty, nothing to claim
+        res["reachable"] = "unsat"
+        res["witness"] = None
+        res["empty_domain"] = True
+        return res
     for grp in groups:
         r = prob.differ_any([(g, ref) for (_, _, g, ref) in grp], timeout_ms, nice_vars=nice)
         res[r.verdict] += 1
@@ -79,7 +91,11 @@ def check_grads(path, L, leaves, timeout_ms=10000, per_element=False, extra_cond
             if res["cex"] is None:
                 res["cex"] = {"kind": "value", "leaf": grp[0][0], "index": None, "model": r.model,
                               "got": grp[0][2], "ref": grp[0][3]}
-    # reachability / vacuity twin
+    # reachability / vacuity twin (trivial when the run made no decision and met no definedness condition)
+    if not conds:
+        res["reachable"] = "sat"
+        res["witness"] = {n: 1 for n in nice[:8]}
+        return res
     rr = prob.reachable(timeout_ms, nice_vars=nice)
     res["reachable"] = rr.verdict
     res["witness"] = rr.model
